@@ -212,13 +212,30 @@ def r02_2(ctx, fx):
             ctx.ob("R02.2", "poll_read/re-parked-buffer-comes-from-pending", vl is not None and _from_take(fn, vl), site=fn.site(node), cfg=fx.cfg)
 
 
+def _accumulators(fn):
+    """(T, B): T = the multiply-assigned local whose value is returned in Ready(Ok(T)) (bytes accepted);
+    B = the multiply-assigned local stored as WriteState::Writing.encrypted_len (write position). Found by role, not by name."""
+    T = B = None
+    for n, sh in fn.exits():
+        if any(s.startswith("Ready.Ok") for s in sh):
+            for l in slice_locals(fn, _ret_payload(fn, n)):
+                if fn.single_def(l) is None and len(fn.defs().get(l, [])) >= 2 and fn.locals[l] == "usize":
+                    T = l
+    for n, s in fn.aggregates(r"WriteState$", "Writing"):
+        for l in slice_locals(fn, s["rv"]["ops"][1]):
+            if fn.single_def(l) is None and len(fn.defs().get(l, [])) >= 2 and fn.locals[l] == "usize":
+                B = l
+    return T, B
+
+
 def r02_3(ctx, fx):
     fn = ctx.fn(fx, WR, "R02.3")
     if fn is not None:
         wm = fn.calls(r"NoiseContext::write_message$")
         ctx.anchor("R02.3", "poll_write: write_message", len(wm), 1, cfg=fx.cfg)
-        tot = [l for l, n in fn.names.items() if n == "total_plaintext"]
-        off = [l for l, n in fn.names.items() if n == "buffer_offset"]
+        T0, B0 = _accumulators(fn)
+        tot = [T0] if T0 is not None else []
+        off = [B0] if B0 is not None else []
         ctx.anchor("R02.3", "poll_write: total_plaintext / buffer_offset variables", min(len(tot), len(off)), 1, cfg=fx.cfg)
         if wm and tot and off:
             w = wm[0]
@@ -337,7 +354,7 @@ def r02_4(ctx, fx):
             # light path sensitivity on this.write_state (drained => Idle), and the capacity assumption: in the Idle arm
             # (buffer_offset = 0) the first chunk always fits because the encrypt buffer holds >= 1 frame (R02.1)
             tracker = typestate.Tracker(fn, r"\.write_state$")
-            off = [l for l, n in fn.names.items() if n == "buffer_offset"]
+            off = [x for x in [_accumulators(fn)[1]] if x is not None]
             extra = [n for n, kind, pl in fn.defs().get(off[0], []) if kind == "assign" and fn.const_value(pl["rv"].get("o", {})) == 0] if off else []
             ctx.anchor("R02.4", "poll_write: Idle arm `buffer_offset = 0`", len(extra), 1, cfg=fx.cfg)
             note = " (paths through the Idle arm are discharged by the capacity argument of R02.1: a chunk of <= MAX_FRAME_LEN bytes fits an empty encrypt buffer)"
